@@ -147,7 +147,7 @@ impl<'a> Gen<'a> {
     }
 
     fn binary_on_quantum(&mut self) -> St {
-        let op = *self.r.pick(&["+", "-", "*", "/", "&", "|", "^", "<<", "==", "!="]);
+        let op = *self.r.pick(&["+", "-", "*", "/", "&", "|", "^", "<<", "==", "!=", "**", "%", ">>"]);
         // quantum operands: a qubit, a register, a hardware qubit
         let (l, lq) = match self.r.below(4) {
             0 => ("q0", true),
@@ -369,6 +369,21 @@ fn build(seed: u64) -> Prog {
             expect: vec![],
             rule: "return/in-def".into(),
         });
+    }
+    // a subroutine parameter is a variable: assigning to it is no const mutation (also two scopes down)
+    if g.r.chance(1, 4) {
+        g.counter += 1;
+        let n = g.counter;
+        let (ty, v) = *g.r.pick(&[("int", "2"), ("uint[8]", "3"), ("float", "2.5"), ("bool", "true"), ("duration", "20ns"), ("int[32]", "5")]);
+        let body = match g.r.below(3) {
+            0 => format!("pp = {v};"),
+            1 => format!("if (true) {{ pp = {v}; }}"),
+            _ => format!("for int lv in [0:1] {{ if (true) {{ pp = {v}; }} }}"),
+        };
+        let form = format!("def pa{n}({ty} pp) {{ {body} }}");
+        line_starts.push(text.len());
+        text.push_str(&format!("{form}\n"));
+        stmts.push(St { text: form, expect: vec![], rule: format!("assign/parameter/{ty}") });
     }
     // declarations inside subroutine scopes
     if g.r.chance(1, 3) {
